@@ -141,6 +141,8 @@ func (s Step) coq() string {
 		return "RecvErr"
 	case "senderr":
 		return "SendErr"
+	case "eof":
+		return "Eof"
 	case "await":
 		return "Await"
 	}
@@ -202,7 +204,7 @@ func sanitise(c Case) Case {
 			sending, waiting = true, 0
 		case "stop":
 			sending = false
-		case "resp", "recverr", "senderr", "await":
+		case "resp", "recverr", "senderr", "await", "eof":
 		default:
 			continue
 		}
@@ -531,6 +533,20 @@ func (r *runner) runCase(cs Case) ([]Obs, string) {
 				if !drainDone() {
 					note(i, "HANG: Done() not signalled after the receiver failed")
 				}
+			}
+		case "eof":
+			// the server ends the RPC with status OK: the receiver reads io.EOF; nothing is recorded, nothing completed
+			if !recvAlive || streamDead {
+				break
+			}
+			failedBefore := p.recvFailed.Load()
+			h.end(nil)
+			if !waitFor(func() bool { return p.recvFailed.Load() > failedBefore }) {
+				note(i, "HANG: the receiver did not notice the end of the stream")
+			}
+			recvAlive = false
+			if !drainDone() {
+				note(i, "HANG: Done() not signalled after the server ended the RPC")
 			}
 		case "recverr":
 			if !recvAlive {
@@ -898,6 +914,10 @@ func genCase(r *drv.Rng) Case {
 		if c.Elec && r.Chance(4, 5) {
 			add(Step{K: "resp", Elec: true})
 		}
+	}
+	if recvAlive && r.Chance(1, 5) {
+		// the server ends the RPC cleanly, whatever is still unanswered
+		add(Step{K: "eof"})
 	}
 	add(Step{K: "await"})
 	return c
